@@ -297,8 +297,8 @@ func genC08Harness(u *PkgUnit) (int, error) {
 		if inlineAllOfAdditional(u.Spec, sn) {
 			sb.WriteString("\tvrt.Known(\"C08-allof-inline-member-additional-properties-dropped\", true)\n")
 		}
-		fmt.Fprintf(&sb, "\tvalid := %s(j, false)\n\tvar w %s\n\terr := json.Unmarshal([]byte(doc), &w)\n", vf, t)
-		sb.WriteString("\tif valid {\n\t\tvrt.Reach(\"valid-document\")\n\t\tvrt.Assert(err == nil, \"a document that is valid for the schema was rejected\")\n\t\tif err == nil {\n\t\t\tbs, merr := w.MarshalJSON()\n\t\t\tvrt.Assert(merr == nil, \"re-encoding a decoded valid document failed\")\n\t\t\tif merr == nil {\n\t\t\t\trj, rok := vrt.ParseJSON(bs)\n\t\t\t\tvrt.Assert(rok, \"re-encoding a decoded valid document gave invalid JSON\")\n\t\t\t\tif rok {\n\t\t\t\t\tvrt.Assert(j.Equal(rj), \"decode then encode of a valid document is not an equivalent JSON value\")\n\t\t\t\t}\n\t\t\t}\n\t\t}\n\t}\n")
+		fmt.Fprintf(&sb, "\tvalid := %s(j, false)\n\texact := valid && %s(j, true)\n\tvar w %s\n\terr := json.Unmarshal([]byte(doc), &w)\n", vf, vf, t)
+		sb.WriteString("\tif valid {\n\t\tvrt.Reach(\"valid-document\")\n\t\tvrt.Assert(err == nil, \"a document that is valid for the schema was rejected\")\n\t\tif err == nil {\n\t\t\tbs, merr := w.MarshalJSON()\n\t\t\tvrt.Assert(merr == nil, \"re-encoding a decoded valid document failed\")\n\t\t\tif merr == nil {\n\t\t\t\trj, rok := vrt.ParseJSON(bs)\n\t\t\t\tvrt.Assert(rok, \"re-encoding a decoded valid document gave invalid JSON\")\n\t\t\t\tif rok && exact {\n\t\t\t\t\tvrt.Assert(j.Equal(rj), \"decode then encode of a valid document is not an equivalent JSON value\")\n\t\t\t\t}\n\t\t\t}\n\t\t}\n\t}\n")
 		// single-fault claims at the top level of object schemas
 		sch := u.Spec.Resolve(asM(asM(asM(u.Spec.Doc["components"])["schemas"])[sn]))
 		ve := &valEmitter{spec: u.Spec, sb: &sb}
